@@ -16,20 +16,19 @@ import shutil
 from pathlib import Path
 
 ID = "C19"
-LEVEL_TEXT = ("Theorems for all trees (any depth, any member count): every runtime member survives a merge at its path with its kind / alias identity, "
-              "in its position, even in the partial state a raising merge leaves; per-name field table of one merged scope (function: annotations by "
-              "name/returns/overloads from the stubs, attribute: annotation from the stubs, docstring only when missing, class/module: recursive, kind "
-              "mismatch or alias on either side: untouched, stub-only: appended with runtime=False, alias to a loaded object: merged into the target); "
-              "unloaded aliases are never touched; merge_stubs and the implicit merge of set_member give the same result in both orders; a merge raises "
-              "exactly in gap F1 and then AliasResolutionError. Three genuine defects are proved as refutations with decidable gap predicates "
-              "(F1 alias + overload-only stub raises / order dependent, F2 overload-only stub clobbers a non-function, F3 stub-only members below an "
-              "alias are dropped) and the statements hold modulo them. Model tied to /repo by differential runs on generated file pairs in five "
-              "placements and both discovery orders.")
+LEVEL_TEXT = ("Theorems for all trees (any depth, any member count), without gap hypotheses since the repairs of findings F1-F3: every runtime "
+              "member survives a merge at its path with its kind / alias identity, in its position; merging stubs as the visitor builds them never "
+              "raises; per-name field table of one merged scope (function: annotations by name/returns/overloads from the stubs, attribute: annotation "
+              "from the stubs, docstring only when missing, class/module: the completed recursive merge, kind mismatch or alias on either side: "
+              "untouched, stub-only: appended with runtime=False, alias to a loaded object: the same merge into its target); unloaded aliases are never "
+              "touched; merge_stubs and the implicit merge of set_member give the same result in both orders; two regular modules are rejected. "
+              "Model tied to the tree under test by differential runs on generated file pairs in nine placements and both discovery orders.")
 LEVEL_NOTE = ("Trusted: Coq kernel, extraction, the live-object -> tree abstraction and generators in this module. Values not objects: an alias is either "
               "an opaque leaf (target not loaded) or carries the value of its loaded final target (one alias per target; chains of loaded aliases and "
               "resolution order between third files are not modelled). Expressions are their str() text. Contents of the per-scope overload buffer "
               "(Module/Class.overloads) of the *result* are not compared (bookkeeping that depends on how often the loader merges). The loader's second "
-              "merge of the same pair is modelled (load_package, residual) and checked by (C) only; its idempotence is not a theorem.")
+              "merge of the same pair is modelled (load_package, residual) and checked by (C) only; its idempotence is not a theorem. Parent/path/"
+              "collection consistency, stubs importing loaded objects and the wildcard facade against CPython are direct checks, not theorems.")
 MODEL = ("Model.C19_merge", "run_C19")
 COQ_TARGETS = ["Proofs/C19_merge.vo"]
 RULE = ("seeded random scope pairs: per name the runtime side is absent/attribute/function(+overloads)/class/alias and the stubs side is "
@@ -257,8 +256,8 @@ def gen_pair(rng, anns=None, aliases=True):
 F1_WITNESS = ("from extpkg import g\nA = 1\n", "from typing import overload\n@overload\ndef g(x: int) -> int: ...\n@overload\ndef g(x: str) -> str: ...\nA: int\n")
 F2_WITNESS = ("class K:\n    def m(self): ...\nA = 1\n", "from typing import overload\n@overload\ndef K(x: int) -> int: ...\n@overload\ndef A(x: str) -> str: ...\n")
 
-F3_WITNESS = {"a_impl.py": "class C:\n    def m(self): ...\n", "m.py": "from pkg.a_impl import C\n",
-              "m.pyi": "class C:\n    def m(self) -> int: ...\n    def only(self) -> int: ...\n"}
+F3_WITNESS = ("class C:\n    def m(self): ...\n    class D:\n        x = 1\n",
+              "class C:\n    def m(self) -> int: ...\n    def only(self) -> int: ...\n    class D:\n        x: int\n        y: str\n")
 
 # hand-written edge pairs (always run first): each reaches a row of the table that random generation reaches rarely
 CORPUS = [
@@ -285,12 +284,14 @@ CORPUS = [
      "    @overload\n    def n(self) -> int: ...\n    @overload\n    def n(self, x: int) -> str: ...\n    class E:\n        z: int\n"),
     # stub-only class with its own pending overloads
     ("A = 1\n", "from typing import overload\nclass S:\n    @overload\n    def m(self) -> int: ...\n    @overload\n    def m(self, x: int) -> str: ...\n    def k(self) -> int: ...\n"),
-    # F1: alias at runtime, overloads only in the stub
+    # repaired finding F1: alias at runtime, overloads only in the stub
     F1_WITNESS,
     # F1 inside a class
     ("class C:\n    from extpkg import g\n    A = 1\n", "from typing import overload\nclass C:\n    @overload\n    def g(self) -> int: ...\n    A: int\n"),
-    # F2: class / attribute at runtime, overloads only in the stub
+    # repaired finding F2: class / attribute at runtime, overloads only in the stub
     F2_WITNESS,
+    # repaired finding F3 (as pkg/a_impl.py re-exported by pkg/m.py): stub-only members of a class reached through an alias
+    F3_WITNESS,
     # empty sides
     ("", "A: int\n"),
     ("A = 1\n", ""),
@@ -483,8 +484,7 @@ def run_producer(d: Path, py: str, pyi: str, stubs_first: bool):
 # ----------------------------------------------------------------------------------------------------------------------
 # the property, read declaratively over abstracted trees (no model, no fold): what the merged scope must be
 # ----------------------------------------------------------------------------------------------------------------------
-def spec_scope(s, o, add_stub_only=True):
-    """add_stub_only=False is the behaviour of known finding F3 (scope reached through an alias), used only to classify."""
+def spec_scope(s, o):
     buf = {k: v for k, v in s[OV][1]} if s[OV][0] == "dict" else {}
     smap = {n: t for n, t in s[MEM]}
     out = []
@@ -508,11 +508,11 @@ def spec_scope(s, o, add_stub_only=True):
         elif om2[KIND] == "attribute":
             r[ANN] = sm[ANN]
         else:
-            r = spec_scope(sm, om2, add_stub_only)
+            r = spec_scope(sm, om2)
         out.append([n, r])
     onames = {n for n, _ in o[MEM]}
     for n, sm in s[MEM]:
-        if n not in onames and add_stub_only:
+        if n not in onames:
             sm2 = list(sm)
             sm2[2 if sm[0] == "alias" else RT] = False
             out.append([n, sm2])
@@ -526,7 +526,8 @@ def spec_scope(s, o, add_stub_only=True):
 
 
 def py_gaps(s, o, prefix=()):
-    """Python mirror of known_gap_F1 / known_gap_F2: paths of runtime members hit by a non-empty stub buffer entry."""
+    """Observation only (input distribution): runtime members that are not functions and carry the name of a pending overload
+    group of the stubs (aliases / other objects) - the inputs of the repaired findings F1 / F2."""
     f1, f2 = [], []
     if s[0] != "obj" or o[0] != "obj":
         return f1, f2
@@ -615,7 +616,7 @@ def _run_case(ctx, d, case, py, pyi, stream, use_model, idx):
     ctx.observe("stream", stream)
     observe_pair(ctx, t_pyi, t_py, 0)
     f1_paths, f2_paths = py_gaps(t_pyi, t_py)
-    ctx.observe("gap", "F1" if f1_paths else ("F2" if f2_paths else "none"))
+    ctx.observe("pending_overloads_name_a_non_function", "alias" if f1_paths else ("object" if f2_paths else "no"))
 
     # ---- implementation, every placement
     impl = {}
@@ -662,20 +663,10 @@ def _run_case(ctx, d, case, py, pyi, stream, use_model, idx):
 
     # ---- direct evaluation of the property on the implementation
     expected = norm_result(spec_scope(t_pyi, t_py))
-    f2_set = set(f2_paths)
-    # F1 as the findings file describes it: a hit in the module's own scope makes merge_stubs raise (direct call, top-level
-    # pair) or leaves the second file unmerged (m.py/m.pyi in a package); a deeper hit silently aborts the merge of that class.
-    f1_top = any(len(p) == 1 for p in f1_paths)
-    f1_scopes = {p[:-1] for p in f1_paths}
-
-    def under_f1(path):
-        return any(path[:len(sc)] == sc for sc in f1_scopes)
-
     placements_m = {}
     for k, v in impl.items():
         if v[0] == "err":
-            known = f1_top and v[1] == "AliasResolutionError" and (k.startswith("direct") or k == "toplevel")
-            ctx.property_failure({**case, "placement": k}, {"raised": v[1], "expected": "no exception"}, finding="C19-F1" if known else None)
+            ctx.property_failure({**case, "placement": k}, {"raised": v[1], "expected": "no exception"})
             continue
         is_pyi, tree = v[1]
         if k == "stubs-package":
@@ -695,23 +686,14 @@ def _run_case(ctx, d, case, py, pyi, stream, use_model, idx):
             tree = mm["m"]
         placements_m[k] = tree
         if is_pyi:
-            known = f1_top and k in ("inpkg(py first)", "producer(py first)")
-            ctx.property_failure({**case, "placement": k}, {"result_is": "the stubs module (.pyi filepath)", "expected": "the runtime module"},
-                                 finding="C19-F1" if known else None)
+            ctx.property_failure({**case, "placement": k}, {"result_is": "the stubs module (.pyi filepath)", "expected": "the runtime module"})
             continue
         lost = lost_members(t_py, tree)
         if lost:
             ctx.property_failure({**case, "placement": k}, {"lost_runtime_members": lost}, finding=None)
         diffs = tree_diff(tree, expected)
-        k1 = [x for x in diffs if under_f1(x[0])]
-        k2 = [x for x in diffs if not under_f1(x[0]) and x[0] in f2_set and x[1] == "overloads"]
-        unknown = [x for x in diffs if x not in k1 and x not in k2]
-        if k1:
-            ctx.property_failure({**case, "placement": k}, {"differences": k1[:10]}, finding="C19-F1")
-        if k2:
-            ctx.property_failure({**case, "placement": k}, {"differences": k2[:10]}, finding="C19-F2")
-        if unknown:
-            ctx.property_failure({**case, "placement": k}, {"differences_from_property": [list(map(str, x)) for x in unknown[:10]],
+        if diffs:
+            ctx.property_failure({**case, "placement": k}, {"differences_from_property": [list(map(str, x)) for x in diffs[:10]],
                                                             "merged": tree, "expected": expected})
         if unresolved[k]:
             ctx.property_failure({**case, "placement": k}, {"aliases_resolved_by_merging": unresolved[k]})
@@ -719,13 +701,11 @@ def _run_case(ctx, d, case, py, pyi, stream, use_model, idx):
     trees = list(placements_m.items())
     for (k1_, v1), (k2_, v2) in zip(trees, trees[1:]):
         if v1 != v2:
-            ctx.property_failure({**case, "placement": f"{k1_} vs {k2_}"}, {"order_or_placement_dependent": [list(map(str, x)) for x in tree_diff(v1, v2)[:10]]},
-                                 finding="C19-F1" if f1_top else None)
+            ctx.property_failure({**case, "placement": f"{k1_} vs {k2_}"}, {"order_or_placement_dependent": [list(map(str, x)) for x in tree_diff(v1, v2)[:10]]})
     a, b = impl["inpkg(py first)"], impl["inpkg(pyi first)"]
     sa, sb = (a[1][0] if a[0] == "ok" else a[1]), (b[1][0] if b[0] == "ok" else b[1])
     if sa != sb:   # which module survived / which error; tree differences are reported above
-        ctx.property_failure({**case, "placement": "inpkg both orders"}, {"py first: result is .pyi / error": sa, "pyi first: result is .pyi / error": sb},
-                             finding="C19-F1" if f1_top else None)
+        ctx.property_failure({**case, "placement": "inpkg both orders"}, {"py first: result is .pyi / error": sa, "pyi first: result is .pyi / error": sb})
     if impl["direct(py,pyi)"] != impl["direct(pyi,py)"]:
         ctx.property_failure({**case, "placement": "merge_stubs argument order"}, {"a,b": str(impl["direct(py,pyi)"])[:300], "b,a": str(impl["direct(pyi,py)"])[:300]})
 
@@ -746,7 +726,6 @@ def _run_case(ctx, d, case, py, pyi, stream, use_model, idx):
         "producer(pyi first)": ["set_member", fpyi, fpy],
         "toplevel": ["load_package", t_py, t_pyi, []],
         "stubs-package": ["load_package", top_c, stub_init_c, sorted(subs_c)],   # os.walk order within pkgc-stubs: m.pyi, sonly.pyi
-        "gaps": ["gaps", t_pyi, t_py],
         "merge": ["merge", t_pyi, t_py],
     }
     return case, impl, queries, (f1_paths, f2_paths), expected
@@ -983,13 +962,8 @@ def run_facade_case(ctx, idx, py, pyi):
             loader.resolve_aliases(implicit=True)
             stages.append(("after resolve_aliases", facade_problems(pkg, at_runtime, declared)))
         except Exception as e:  # noqa: BLE001
-            # F1 at the package's own scope: a pending overload group of the stubs names an alias that cannot resolve
             ctx.observe("outcome:wildcard-facade", type(e).__name__)
-            t_rt = abstract(visit_file(site / "_pkg" / "__init__.py", "_pkg"))
-            dead = {n for n, t in t_rt[MEM] if t[0] == "alias"}
-            known = type(e).__name__ == "AliasResolutionError" and any(v.get("kind") == "function" and v["overloads"] and v["impl"] is None and n in dead
-                                                                       for n, v in declared.items())
-            ctx.property_failure(case, {"raised": type(e).__name__, "expected": "no exception"}, finding="C19-F1" if known else None)
+            ctx.property_failure(case, {"raised": type(e).__name__, "expected": "no exception"})
             return
         ctx.observe("outcome:wildcard-facade", "ok")
         for stage, probs in stages:
@@ -1070,9 +1044,9 @@ XCHECK: list = []     # a few model queries of every kind, kept for the thorough
 def compare_with_model(ctx, batch):
     if len(XCHECK) < 40:
         for b in batch[:18]:
-            XCHECK.extend([b[2]["merge"], b[2]["inpkg(py first)"], b[2]["stubs-package"], b[2]["gaps"]][:2 if len(XCHECK) > 24 else 4])
+            XCHECK.extend([b[2]["merge"], b[2]["inpkg(py first)"], b[2]["stubs-package"]][:2 if len(XCHECK) > 24 else 3])
     keys = ["direct(py,pyi)", "direct(pyi,py)", "inpkg(py first)", "inpkg(pyi first)", "producer(py first)", "producer(pyi first)",
-            "toplevel", "stubs-package", "gaps", "merge"]
+            "toplevel", "stubs-package", "merge"]
     flat = [b[2][k] for b in batch for k in keys]
     outs = ctx.model(flat)
     for i, (case, impl, queries, (f1p, f2p), expected) in enumerate(batch):
@@ -1087,12 +1061,9 @@ def compare_with_model(ctx, batch):
                 ctx.tie_failure("correspondence", f"model vs griffe [{k}]",
                                 {"differences": [list(map(str, x)) for x in (tree_diff(_tree(m), _tree(got))[:8] if m[0] == got[0] == "ok" else [])],
                                  "model": str(m)[:600], "impl": str(got)[:600]}, case)
-        g = res["gaps"]
-        if [bool(g[0]), bool(g[1])] != [bool(f1p), bool(f2p)] or g[2]:
-            ctx.tie_failure("correspondence", "known_gap_F1/F2 (model) vs python mirror", {"model": g, "python": [f1p, f2p]}, case)
-        # the theorem C19_merge_is_spec, sampled: outside the gaps the model's merge is the declarative reading
+        # the theorems read as a function, sampled: the model's merge is the declarative reading of the property
         mm = norm_model(res["merge"])
-        if not f1p and not f2p and mm != ["ok", expected]:
+        if mm != ["ok", expected]:
             ctx.tie_failure("oracle", "merge_obj (model) vs declarative spec (python)", {"model": str(mm)[:600], "spec": str(expected)[:600]}, case)
         ctx.count("model_cases")
 
@@ -1100,38 +1071,6 @@ def compare_with_model(ctx, batch):
 def _tree(v):
     t = v[1]
     return t if t and t[0] in ("obj", "alias", "alias_to") else t[1]
-
-
-def witnesses(ctx):
-    """Replay the recorded witnesses of the known findings on the implementation."""
-    py, pyi = F1_WITNESS
-    d = ctx.scratch / "w1"
-    write(d / "pkg" / "__init__.py", "")
-    write(d / "pkg" / "m.py", py)
-    write(d / "pkg" / "m.pyi", pyi)
-    a, _, _ = run_load(d, "pkg", "m", reverse=False)
-    b, _, _ = run_load(d, "pkg", "m", reverse=True)
-    c, _ = run_direct(d / "x", py, pyi, False)
-    ctx.witness("C19-F1", c == ["err", "AliasResolutionError"] and a != b and a[0] == "ok" and a[1][0] is True)
-    py, pyi = F2_WITNESS
-    c, _ = run_direct(ctx.scratch / "w2", py, pyi, False)
-    ok = False
-    if c[0] == "ok":
-        mm = dict((n, t) for n, t in c[1][1][MEM])
-        ok = mm["K"][OV][0] == "list" and mm["A"][OV][0] == "list"
-    ctx.witness("C19-F2", ok)
-    import griffe
-    d = ctx.scratch / "w3"
-    write(d / "pkg" / "__init__.py", "")
-    write(d / "pkg" / "a_impl.py", F3_WITNESS["a_impl.py"])
-    write(d / "pkg" / "m.py", F3_WITNESS["m.py"])
-    write(d / "pkg" / "m.pyi", F3_WITNESS["m.pyi"])
-    with walk_listed(["__init__.py", "a_impl.py", "m.py", "m.pyi"]):
-        pkg = griffe.load("pkg", search_paths=[str(d)], allow_inspection=False)
-    c = pkg.members["a_impl"].members["C"]
-    ctx.witness("C19-F3", c.members["m"].returns is not None and "only" not in c.members)
-    for w in ("w1", "w2", "w3"):
-        shutil.rmtree(ctx.scratch / w, ignore_errors=True)
 
 
 # ----------------------------------------------------------------------------------------------------------------------
@@ -1180,12 +1119,6 @@ def run_resolvable_case(ctx, idx, py, pyi, use_model=True):
         exp = spec_scope(restricted, t_impl)
         exp[DOC], exp[IMP] = t_impl[DOC], t_impl[IMP]
         exp = norm_result(exp)
-        exp_f3 = spec_scope(restricted, t_impl, add_stub_only=False)     # what known finding F3 makes of it (mirror of known_gap_F3)
-        exp_f3[DOC], exp_f3[IMP] = t_impl[DOC], t_impl[IMP]
-        exp_f3 = norm_result(exp_f3)
-        ctx.observe("gap(alias-to-loaded-target)", "F3" if exp_f3 != exp else "none")
-        f1_paths, f2_paths = py_gaps(restricted, t_impl)
-        f1_scopes, f2_set = {p[:-1] for p in f1_paths}, set(f2_paths)
         want_m = [[n, "alias", "pkg.a_impl." + n, True] for n in imported] + \
                  [[n, t[0], t[1] if t[0] == "alias" else t[KIND], False] for n, t in t_pyi[MEM] if n not in imported]
         ctx.case(case, bool(restricted[MEM]))
@@ -1195,12 +1128,10 @@ def run_resolvable_case(ctx, idx, py, pyi, use_model=True):
         t_m = abstract(visit_file(d / "in" / "m.py"))
         impl_by = dict((n, t) for n, t in t_impl[MEM])
         t_m[MEM] = [[n, ["alias_to", t[1], t[2], impl_by[n]]] for n, t in t_m[MEM]]
-        model_q = [["set_member", [False, t_m], [True, t_pyi]], ["set_member", [True, t_pyi], [False, t_m]], ["gaps", t_pyi, t_m]]
+        model_q = [["set_member", [False, t_m], [True, t_pyi]], ["set_member", [True, t_pyi], [False, t_m]]]
         model_r = ctx.model(model_q) if use_model else None
         if use_model and len(XCHECK) < 60 and idx % 5 == 0:
             XCHECK.extend(model_q[1:])
-        if model_r is not None and bool(model_r[2][2]) != (exp_f3 != exp):
-            ctx.tie_failure("correspondence", "known_gap_F3 (model) vs python mirror", {"model": model_r[2], "python": exp_f3 != exp}, case)
         results = []
         for order in (["__init__.py", "a_impl.py", "m.py", "m.pyi"], ["__init__.py", "a_impl.py", "m.pyi", "m.py"]):
             shutil.rmtree(d / "P", ignore_errors=True)
@@ -1236,23 +1167,9 @@ def run_resolvable_case(ctx, idx, py, pyi, use_model=True):
                 ctx.property_failure({**case, "order": order[2:]}, {"result_is": "the stubs module", "expected": "the runtime module"})
             if got_m != [[n, ("alias" if k == "alias" else "obj"), v, r] for n, k, v, r in want_m]:
                 ctx.property_failure({**case, "order": order[2:]}, {"members_of_m": got_m, "expected": want_m})
-            d_ok = tree_diff(got, exp)
-            d_def = tree_diff(got, exp_f3) if d_ok else []
-            k3 = [x for x in d_ok if x not in d_def]          # explained by F3: stub-only members missing below an alias
-            if k3 and all(x[1].startswith("member-names") and len(x[0]) >= 1 for x in k3):
-                ctx.property_failure({**case, "order": order[2:]}, {"differences": k3[:10]}, finding="C19-F3")
-                diffs = [x for x in d_ok if x in d_def]
-            else:
-                diffs = d_ok
-            k1 = [x for x in diffs if any(x[0][:len(sc)] == sc and sc for sc in f1_scopes)]
-            k2 = [x for x in diffs if x not in k1 and x[0] in f2_set and x[1] == "overloads"]
-            unknown = [x for x in diffs if x not in k1 and x not in k2]
-            if k1:
-                ctx.property_failure({**case, "order": order[2:]}, {"differences": k1[:10]}, finding="C19-F1")
-            if k2:
-                ctx.property_failure({**case, "order": order[2:]}, {"differences": k2[:10]}, finding="C19-F2")
-            if unknown:
-                ctx.property_failure({**case, "order": order[2:]}, {"target_module_differs_from_property": [list(map(str, x)) for x in unknown[:10]],
+            diffs = tree_diff(got, exp)
+            if diffs:
+                ctx.property_failure({**case, "order": order[2:]}, {"target_module_differs_from_property": [list(map(str, x)) for x in diffs[:10]],
                                                                    "a_impl_after": got, "expected": exp})
         if len(results) == 2 and results[0] != results[1]:
             ctx.property_failure(case, {"order_dependent": [list(map(str, x)) for x in tree_diff(results[0][0], results[1][0])[:10]],
@@ -1262,7 +1179,6 @@ def run_resolvable_case(ctx, idx, py, pyi, use_model=True):
 
 
 def explore(ctx):
-    witnesses(ctx)
     batch = []
     idx = 0
     pairs = [(py, pyi, "corpus") for py, pyi in CORPUS]
@@ -1358,7 +1274,7 @@ def replay(ctx, data):
                 print("PROPERTY FAILURE:", json.dumps(f["detail"], default=str)[:1500], "classified:", f["classified_as"])
             for t in ctx.tie_failures:
                 print("MODEL DISAGREES:", t["name"], json.dumps(t["detail"], default=str)[:1500])
-            print("known-gap hits:", dict(ctx.known_hits))
+            pass
         finally:
             shutil.rmtree(ctx.scratch, ignore_errors=True)
         return 0
@@ -1370,16 +1286,16 @@ def replay(ctx, data):
     try:
         r = run_case(ctx, 0, case["py"], case["pyi"], "replay", use_model=ctx.driver is not None)
         if r is not None:
-            _, impl, queries, gaps, expected = r
+            _, impl, queries, _, expected = r
             for k, v in impl.items():
                 print(f"griffe [{k}]:", json.dumps(v)[:1500])
             print("property (declarative spec):", json.dumps(expected)[:1500])
             outs = ctx.model(list(queries.values()))
             for k, o in zip(queries, outs):
-                print(f"model  [{k}]:", json.dumps(norm_model(o) if k != "gaps" else o)[:1500])
+                print(f"model  [{k}]:", json.dumps(norm_model(o))[:1500])
         for f in ctx.prop_failures:
             print("PROPERTY FAILURE:", json.dumps(f["detail"], default=str)[:800], "classified:", f["classified_as"])
-        print("known-gap hits:", dict(ctx.known_hits))
+        pass
     finally:
         shutil.rmtree(ctx.scratch, ignore_errors=True)
     return 0
